@@ -82,6 +82,7 @@ fn main() {
     assert_eq!(t.next(), "T");
     let n: usize = t.num();
     TABLE.with(|tb| tb.borrow_mut().clear());
+    EXT.with(|m| m.borrow_mut().clear());
     FAILING.with(|f| f.borrow_mut().clear());
     for _ in 0..n {
       let id: u32 = t.num();
@@ -115,7 +116,7 @@ fn main() {
     let mut known: std::collections::BTreeSet<u32> = std::collections::BTreeSet::new();
     while t.peek().is_some() {
       match t.next() {
-        "E" => { let r: u32 = t.num(); let v: i64 = t.num(); pie.resource_state_mut::<R>().get_global_map_mut().insert(R(r), v); }
+        "E" => { let r: u32 = t.num(); let v: i64 = t.num(); if r >= EXT_BASE { ext_set(r, Some(v)); } else { pie.resource_state_mut::<R>().get_global_map_mut().insert(R(r), v); } }
         "D" => { let r: u32 = t.num(); pie.resource_state_mut::<R>().get_global_map_mut().remove(&R(r)); }
         "F" => {
           let k: usize = t.num();
@@ -126,12 +127,13 @@ fn main() {
           let cont = tk == "Z";   // Z: keep using the same Session after a caught abort
           let k: usize = t.num();
           #[derive(Debug)]
-          enum Sop { Req(u32), Bu(Vec<u32>) }
+          enum Sop { Req(u32), Bu(Vec<u32>), Ext(u32, i64) }
           let mut sops = Vec::new();
           for _ in 0..k {
             match t.next() {
               "q" => sops.push(Sop::Req(t.num())),
               "b" => { let m: usize = t.num(); let mut rs = Vec::new(); for _ in 0..m { rs.push(t.num()); } sops.push(Sop::Bu(rs)); }
+              "e" => { let r: u32 = t.num(); let v: i64 = t.num(); sops.push(Sop::Ext(r, v)); }   // an external change while the session is alive
               x => panic!("bad sop {}", x),
             }
           }
@@ -151,17 +153,18 @@ fn main() {
                   Sop::Req(tk) => { let o = session.require(&T(*tk)); format!("o q {} -> {}", tk, o) }
                   Sop::Bu(rs) => {
                     let mut bu = session.create_bottom_up_build();
-                    for r in rs { bu.schedule_tasks_affected_by(&R(*r)); }
+                    for r in rs { if *r >= EXT_BASE { bu.schedule_tasks_affected_by(&X(*r)); } else { bu.schedule_tasks_affected_by(&R(*r)); } }
                     bu.update_affected_tasks();
                     "o b -> done".to_string()
                   }
+                  Sop::Ext(r, v) => { ext_set(*r, Some(*v)); "o e -> done".to_string() }
                 }
               }));
               match r {
                 Ok(s) => results.push(s),
                 Err(e) => {
                   let k = abort_kind(&panic_message(&e));
-                  results.push(match sop { Sop::Req(tk) => format!("o q {} -> abort {}", tk, k), Sop::Bu(_) => format!("o b -> abort {}", k) });
+                  results.push(match sop { Sop::Req(tk) => format!("o q {} -> abort {}", tk, k), Sop::Bu(_) => format!("o b -> abort {}", k), Sop::Ext(..) => "o e -> abort".to_string() });
                   if !cont { break; }
                 }
               }
